@@ -119,6 +119,7 @@ func main() {
 	genFacts(c, sch)
 	genScanBlocks(c)
 	genBuilder(c)
+	genScanDFA(c)
 	if sch != nil {
 		genResolver(c, sch)
 		genFormatter(c, sch)
